@@ -327,3 +327,40 @@ Proof.
   induction dom as [|x t IH]; intros H; [reflexivity|]. cbn. rewrite (H x (or_introl eq_refl)).
   rewrite IH by (intros; apply H; right; assumption). reflexivity.
 Qed.
+
+(* a VET transfer leaves every account's energy at block time unchanged (both sides are settled at T first) *)
+Lemma transfer_energy_at T S l s r amt a :
+  energy_at T S (l_acc (transfer T S l s r amt) a) = energy_at T S (l_acc l a).
+Proof.
+  unfold transfer. destruct (amt =? 0); [reflexivity|].
+  unfold add_balance, set_energy, set_acc, get_energy; cbn [l_acc].
+  destruct (Z.eq_dec a r) as [Er|Nr]; destruct (Z.eq_dec a s) as [Es|Ns]; subst.
+  - unfold upd. rewrite !Z.eqb_refl. cbn [a_bal a_eng a_bt]. rewrite energy_at_settled. reflexivity.
+  - assert (E : (s =? r) = false) by (apply Z.eqb_neq; auto). assert (E' : (r =? s) = false) by (apply Z.eqb_neq; auto).
+    unfold upd. rewrite !Z.eqb_refl, ?E, ?E'. cbn [a_bal a_eng a_bt]. rewrite ?Z.eqb_refl, ?E, ?E'. cbn [a_bal a_eng a_bt].
+    rewrite energy_at_settled. reflexivity.
+  - assert (E : (s =? r) = false) by (apply Z.eqb_neq; auto). assert (E' : (r =? s) = false) by (apply Z.eqb_neq; auto).
+    unfold upd. rewrite !Z.eqb_refl, ?E, ?E'. cbn [a_bal a_eng a_bt]. rewrite ?Z.eqb_refl, ?E, ?E'. cbn [a_bal a_eng a_bt].
+    rewrite energy_at_settled. reflexivity.
+  - rewrite !upd_other by assumption. reflexivity.
+Qed.
+
+Lemma sumf_ext_f f dom (s1 s2 : accts) : (forall a, In a dom -> f (s1 a) = f (s2 a)) -> sumf f dom s1 = sumf f dom s2.
+Proof.
+  induction dom as [|x t IH]; intros H; [reflexivity|]. cbn. rewrite (H x (or_introl eq_refl)).
+  rewrite IH by (intros; apply H; right; assumption). reflexivity.
+Qed.
+
+(* ops that, as far as the addresses of dom are concerned, are only VET transfers: the energy total over dom is unchanged *)
+Definition energy_quiet (dom : list Z) (o : op) : Prop :=
+  (exists s r amt, o = OTransfer s r amt) \/ (forall a, In a (touches o) -> ~ In a dom).
+
+Lemma energy_quiet_ops T S dom os : forall l, (forall o, In o os -> energy_quiet dom o) ->
+  sum_eng T S dom (l_acc (apply_ops T S l os)) = sum_eng T S dom (l_acc l).
+Proof.
+  induction os as [|o t IH]; intros l H; [reflexivity|]. unfold apply_ops in *. cbn [fold_left].
+  rewrite IH by (intros; apply H; right; assumption).
+  destruct (H o (or_introl eq_refl)) as [[s [r [amt ->]]]|AV]; unfold sum_eng.
+  - apply sumf_ext_f. intros a _. cbn [apply_op]. apply transfer_energy_at.
+  - apply sumf_ext. intros a Ha. apply untouched_op. intros C. exact (AV a C Ha).
+Qed.
